@@ -299,6 +299,7 @@ func TestSim(t *testing.T) {
 					cfg.Avoid = append(cfg.Avoid, a)
 				}
 			}
+			cfg.Avoid = append(cfg.Avoid, cfg.ExtraAvoid...)
 		}
 		res := runOne(t, prof, cfg, rt.NewTape(seed), trace)
 		if os.Getenv("HAPSIM_SAMPLE") != "" && i == 0 && res.Config == nil {
